@@ -420,6 +420,11 @@ func structsEqual(x, y any) (err error) {
 			}
 		}
 
+		// unexported fields cannot be read; skip them
+		if !xvf.CanInterface() || !yvf.CanInterface() {
+			continue
+		}
+
 		err = valuesEqual(xvf.Interface(), yvf.Interface())
 	}
 
